@@ -194,7 +194,9 @@ Definition handle_event_frame_wf (f : fn_def) : bool :=
                     ELetS (PIdent "ids" None)
                       (Some (EMethod (EMethod (EMethod (EPath ["paths"]) "into_iter" []) "flat_map" [_]) "filter_map"
                                [EClosure _ (ECall (EPath ["id_of_path"]) _)])) None;
-                    EIf (EMethod (EMethod (EField (EPath ["self"]) "events") "send_multiple" [EPath ["ids"]]) "is_err" []) _ None]]);
+                    (* nobody listens any more: the watcher lets go of itself *)
+                    EIf (EMethod (EMethod (EField (EPath ["self"]) "events") "send_multiple" [EPath ["ids"]]) "is_err" [])
+                      [ESemi (ECall (EPath ["drop"]) [EMethod (EField (EPath ["self"]) "watcher") "take" []])] None]]);
         (PTupleStruct ["Err"] [PIdent _ None], None, EMacro _ _)]] =>
     Nat.eqb (count_returns (fn_body f)) 1
   | _ => false
